@@ -78,6 +78,18 @@ def accumulation_terms(fn: ast.FunctionDef, vals: str):
     return terms, problems
 
 
+def _loop_chain(outer: ast.For, inner: ast.For) -> list[ast.For]:
+    chain = [outer]
+    cur = outer
+    while cur is not inner:
+        nxt = [x for x in cur.body if isinstance(x, ast.For)]
+        if not nxt:
+            break
+        cur = nxt[0]
+        chain.append(cur)
+    return chain
+
+
 def order_expr_ok(e: ast.AST) -> tuple[bool, str]:
     """Does the expression preserve declaration order and full length of its source?"""
     for n in ast.walk(e):
@@ -284,29 +296,55 @@ class C01(Check):
             self.violated("A3", MOD, q, "result-depends-on-inputs", fn, f"the returned mapping does not depend on {sorted(need - (weakest or set()))}")
 
     def a4(self, mod) -> None:
+        """Every (flux, variable, coefficient) entry of every reaction / surrogate reaches one of the two tables, on every path."""
+        from ..interp import PathInterp
+
         cc = mod.func("Model._create_cache")
         q = "Model._create_cache"
         body = strip_docstring(cc.body)
+
+        class StoreInterp(PathInterp):
+            loop_unroll = 1
+
+            def simple(self_i, stmt, st):
+                stored = st
+                for x in ast.walk(stmt):
+                    if isinstance(x, ast.Assign) and isinstance(x.targets[0], ast.Subscript):
+                        base = norm(x.targets[0].value)
+                        if "stoich" in base or base.startswith("d_static"):
+                            stored = True
+                if isinstance(stmt, ast.Raise):
+                    yield ("raise", stored, None)
+                    return
+                yield ("normal", stored)
+
         rx = [l for l in body if isinstance(l, ast.For) and norm(l.iter) == "self._reactions.items()"]
         sr = [l for l in body if isinstance(l, ast.For) and norm(l.iter) == "self._surrogates.values()"]
-        for name, loops, inner_iter in (("reactions", rx, "rxn.stoichiometry.items()"), ("surrogates", sr, "rxn.items()")):
-            ok = False
-            why = "loop over the whole container not found"
-            if loops:
-                l = loops[0]
-                skips = [x for x in walk_no_nested(l) if isinstance(x, (ast.Continue, ast.Break, ast.Return))]
-                ifs = [x for x in walk_no_nested(l) if isinstance(x, ast.If)]
-                only_kind_tests = all(norm(i.test).startswith(("isinstance(factor, Derived)", "all((i in all_parameter_names")) for i in ifs)
-                stores = [x for x in walk_no_nested(l) if isinstance(x, ast.Assign) and isinstance(x.targets[0], ast.Subscript)]
-                keyed = all(norm(s.targets[0].slice) == "rxn_name" for s in stores) and \
-                    any("stoich_by_compounds.setdefault(cpd_name, {})" in norm(x) for x in walk_no_nested(l))
-                inner = any(isinstance(x, ast.For) and norm(x.iter) == inner_iter for x in walk_no_nested(l))
-                ok = not skips and only_kind_tests and keyed and inner and len(stores) >= 3
-                why = f"skips={len(skips)} non-kind tests={not only_kind_tests} keyed={keyed} inner={inner} stores={len(stores)}"
-            if ok:
-                self.holds("A4", MOD, q, f"table-complete-{name}", loops[0], f"every {name} stoichiometry entry is stored under [variable][flux], static or dynamic")
+        for name, loops in (("reactions", rx), ("surrogates", sr)):
+            if not loops:
+                self.violated("A4", MOD, q, f"table-complete-{name}", cc, f"no loop over the whole container of {name} fills the stoichiometry tables",
+                              witness=f"a {name[:-1]}'s contribution is missing from the derivatives")
+                continue
+            outer = loops[0]
+            # innermost loop over the (variable, coefficient) entries
+            inner = outer
+            while True:
+                nxt = [x for x in inner.body if isinstance(x, ast.For)]
+                if not nxt:
+                    break
+                inner = nxt[0]
+            levels_ok = not any(isinstance(x, (ast.If, ast.Continue, ast.Break)) for l in _loop_chain(outer, inner)[:-1] for x in l.body if not isinstance(x, ast.For))
+            si = StoreInterp()
+            out = si.block(inner.body, [False])
+            ends = out.normal + out.continues + out.breaks
+            skipped = [e for e in ends if not e] or out.breaks
+            keyed = all(norm(x.targets[0].slice) in ("rxn_name",) for x in ast.walk(inner) if isinstance(x, ast.Assign) and isinstance(x.targets[0], ast.Subscript)
+                        and ("stoich" in norm(x.targets[0].value) or norm(x.targets[0].value).startswith("d_static")))
+            if not skipped and levels_ok and keyed and ends:
+                self.holds("A4", MOD, q, f"table-complete-{name}", outer, f"every entry of every {name[:-1]} is stored under [variable][flux] on all {len(ends)} path(s) of the loop body")
             else:
-                self.violated("A4", MOD, q, f"table-complete-{name}", loops[0] if loops else cc, f"stoichiometry tables are not filled from every entry of every {name[:-1]} ({why})",
+                self.violated("A4", MOD, q, f"table-complete-{name}", inner,
+                              f"some path through the loop over {name} stoichiometries stores nothing (entries can be skipped) or uses another key",
                               witness=f"a {name[:-1]}'s contribution is missing from the derivatives")
 
     def a5(self, mod) -> None:
